@@ -136,6 +136,10 @@ def main():
         seed_int = abs(hash(seed)) % (1 << 31)
     conf = PROPS[prop]
     tc = conf[tier]
+    if os.environ.get("VERIF_SCALE"):
+        # background passes between the tiers: the thorough tier's budget scaled down (never used by the registered commands)
+        sc = float(os.environ["VERIF_SCALE"])
+        tc = dict(tc, runs=max(1, int(tc["runs"] * sc)), wall=max(30, int(tc["wall"] * sc)))
     workers = int(os.environ.get("VERIF_WORKERS", tc.get("workers", min(16, os.cpu_count() or 1))))
     start = time.time()
     binp = build(prop, race=conf.get("race", False))
